@@ -191,7 +191,11 @@ func (s *session) runV2(name string, op J) J {
 		}
 		return r
 	case "get":
-		o, err := cl.GetItem(ctx, &dynamodb.GetItemInput{TableName: table, Key: itemToV2(obj(op, "key")), ExpressionAttributeNames: names(op), ProjectionExpression: pstr(op, "projection")})
+		gin := &dynamodb.GetItemInput{TableName: table, Key: itemToV2(obj(op, "key")), ExpressionAttributeNames: names(op), ProjectionExpression: pstr(op, "projection")}
+		if has(op, "atg") {
+			gin.AttributesToGet = strs(op["atg"]) // the legacy parameter: ignored by the library, by every read alike
+		}
+		o, err := cl.GetItem(ctx, gin)
 		r := res(err)
 		if o != nil {
 			r["item"] = itemFromV2(o.Item)
@@ -318,6 +322,9 @@ func (s *session) runV2(name string, op J) J {
 				ka.ExpressionAttributeNames = names(J(opts))
 				ka.ProjectionExpression = pstr(J(opts), "projection")
 			}
+			if has(op, "atg") {
+				ka.AttributesToGet = strs(op["atg"])
+			}
 			in.RequestItems[l2b(t)] = ka
 		}
 		o, err := cl.BatchGetItem(ctx, in)
@@ -384,6 +391,14 @@ func (s *session) runV2(name string, op J) J {
 				for _, v := range item {
 					if v != nil && v.M != nil {
 						v.M["poked"] = &mt.Item{S: sp("p")}
+					}
+					if v != nil {
+						// ... and into every map that is an element of a top-level list attribute
+						for _, e := range v.L {
+							if e != nil && e.M != nil {
+								e.M["poked"] = &mt.Item{S: sp("p")}
+							}
+						}
 					}
 				}
 			}
